@@ -470,6 +470,11 @@ func (k *Keeper) SetAllPrevConsKeys(ctx sdk.Context, prevConsKeys []types.PrevCo
 		bz := k.cdc.MustMarshal(wrappedKey.ToTmProtoKey())
 
 		store.Set(types.KeyForChainIDAndOperatorToPrevConsKey(chainID, opAccAddr), bz)
+		// a previous key was replaced during the exported epoch and may still be in the validator set:
+		// live, its consensus address keeps resolving to the operator (for slashing, and so that nobody
+		// else can take the key) until dogfood prunes it. the records of the current keys restore that
+		// lookup for the current keys only.
+		store.Set(types.KeyForChainIDAndConsKeyToOperator(chainID, wrappedKey.ToConsAddr()), opAccAddr.Bytes())
 	}
 	return nil
 }
